@@ -213,6 +213,8 @@ pub struct Model {
     pub str_seed: u64,
     pub reporter: Option<(bool, u64)>,
     pub reporter_op: Option<OpRef>,
+    /// reporter replacements (every trace not started after one of them is only checked for safety)
+    pub replace_ops: Vec<OpRef>,
     pub slots: Vec<SlotM>,
     pub threads: Vec<ThreadM>,
     pub collects: Vec<Collect>,
@@ -260,6 +262,7 @@ impl Model {
             str_seed,
             reporter: None,
             reporter_op: None,
+            replace_ops: vec![],
             slots: vec![],
             threads: th,
             collects: vec![],
@@ -619,6 +622,15 @@ impl Model {
                 self.reporter = Some((*cancelable, *interval_ns));
                 self.reporter_op = Some(op);
             }
+            Op::ReplaceReporter { cancelable, interval_ns } => {
+                if is_inner || t != 0 {
+                    return err("ReplaceReporter only on main");
+                }
+                if self.reporter != Some((*cancelable, *interval_ns)) {
+                    return err("ReplaceReporter keeps the configuration");
+                }
+                self.replace_ops.push(op);
+            }
             Op::Spawn { t: nt } => {
                 if is_inner {
                     return err("no inner spawn");
@@ -863,7 +875,7 @@ impl Model {
                     }
                 }
             }
-            Op::Finish { slot } => {
+            Op::Finish { slot, .. } => {
                 let sp = match std::mem::replace(self.slot(*slot), SlotM::Gone) {
                     SlotM::Span(sp) => sp,
                     other => {
@@ -1144,6 +1156,11 @@ impl Model {
                 self.pop_handle(t, op, None)?;
             }
             Op::UserPanic { .. } => {}
+            Op::BodyPanic => {
+                if !is_inner {
+                    return err("only inside a poll body");
+                }
+            }
             Op::EventNew { ev, n } => {
                 self.empty_slot(*ev)?;
                 if *n > 0 {
@@ -1340,7 +1357,7 @@ impl Model {
                     return err("task already completed");
                 }
                 let ok_kind = match tk.wrap {
-                    Wrap::InSpan | Wrap::EnterOnPoll | Wrap::InSpanEnterOnPoll => *kind == PollKind::Poll,
+                    Wrap::InSpan | Wrap::EnterOnPoll | Wrap::InSpanEnterOnPoll | Wrap::InSpanCatch => *kind == PollKind::Poll,
                     Wrap::Stream => matches!(kind, PollKind::PollNext | PollKind::PollNextItem),
                     Wrap::Sink => matches!(kind, PollKind::PollReady | PollKind::StartSend | PollKind::PollFlush | PollKind::PollClose | PollKind::PollCloseErr),
                 };
@@ -1370,7 +1387,12 @@ impl Model {
                 }
                 // enter_on_poll: one local span per poll, named like the task
                 let mut eop = false;
-                if matches!(tk.wrap, Wrap::EnterOnPoll | Wrap::InSpanEnterOnPoll) {
+                if let Some(p) = inner.iter().position(|o| matches!(o, Op::BodyPanic)) {
+                    if tk.wrap != Wrap::InSpanCatch || *ready || p + 1 != inner.len() {
+                        return err("a body may panic only as its last step, in a task that catches it, without completing");
+                    }
+                }
+                if matches!(tk.wrap, Wrap::EnterOnPoll | Wrap::InSpanEnterOnPoll | Wrap::InSpanCatch) {
                     let name = span_name(self.str_seed, tk.node);
                     let mut node = None;
                     if let Some(sc) = self.top_scope(t) {
